@@ -10,4 +10,4 @@ def build(reg):
     specs += overlay.add_copy_move(reg)
     specs += ovlread.add_ovlread(reg)  # from the kernel to node[key] / in / get
     specs += findfiles.add_findfiles(reg)  # reopening by name sees every container of the chain
-    return {"verify": specs, "lemmas": [], "trusted": [overlay.T1_READ, overlay.T1_WRITE, overlay.T_NUMPY] + findfiles.T_FIND + ovlread.T_READ, "assumptions": ["iteration order of the result dict (alphabetical) is not modelled"]}
+    return {"verify": specs, "lemmas": [], "trusted": [overlay.T1_READ, overlay.T1_WRITE, overlay.T_NUMPY] + findfiles.T_FIND + ovlread.T_READ + ovlread.T_WALK, "assumptions": ["iteration order of the result dict (alphabetical) is not modelled"]}
